@@ -82,7 +82,14 @@ class ModelCloud:
         if fault == "connect":
             raise httpx.ConnectError("simulated connect failure", request=request)
         if fault.startswith("http"):
-            return httpx.Response(int(fault[4:]), text="simulated http status")
+            # http<status>, optionally with a JSON body as gateways and proxies send them: "j" = an error document that is not
+            # the API's, "k" = a document shaped like the API's success answer (the status still says the request failed)
+            code, kind = (int(fault[4:7]), fault[7:])
+            if kind == "j":
+                return httpx.Response(code, json={"error": "bad gateway", "status": code})
+            if kind == "k":
+                return httpx.Response(code, headers={"content-type": "application/json"}, text=self._json({"tokenlist": [], "loginId": "x", "sessionId": "y"}).text)
+            return httpx.Response(code, text="simulated http status")
         # verify the request like a conforming server
         if request.method != "POST":
             self._bad(path, f"method {request.method}")
@@ -198,7 +205,14 @@ class ModelSmartHome(ModelCloud):
         if fault == "connect":
             raise httpx.ConnectError("simulated connect failure", request=request)
         if fault.startswith("http"):
-            return httpx.Response(int(fault[4:]), text="simulated http status")
+            # http<status>, optionally with a JSON body as gateways and proxies send them: "j" = an error document that is not
+            # the API's, "k" = a document shaped like the API's success answer (the status still says the request failed)
+            code, kind = (int(fault[4:7]), fault[7:])
+            if kind == "j":
+                return httpx.Response(code, json={"error": "bad gateway", "status": code})
+            if kind == "k":
+                return httpx.Response(code, headers={"content-type": "application/json"}, text=self._json({"tokenlist": [], "loginId": "x", "sessionId": "y"}).text)
+            return httpx.Response(code, text="simulated http status")
         if request.method != "POST":
             self._bad(path, f"method {request.method}")
         if url.netloc != SH_HOST or url.scheme != "https" or url.path != "/mas/v5/app/proxy":
